@@ -5,7 +5,7 @@ from vf import H, C, M
 
 UD = "ohkami_lib/src/serde_urlencoded/de.rs"
 CD = "ohkami_lib/src/serde_cookie/de.rs"
-MODULES = [M(UD, "harness/C08/urlencoded_de.rs"), M(CD, "harness/C08/cookie_de.rs"), M("ohkami_lib/src/serde_multipart/parse.rs", "harness/C10/parse.rs", modname="__verif_c10")]
+MODULES = [M("ohkami_lib/src/percent_encoding.rs", "harness/C08/percent_wrapper.rs", modname="__verif_c08w"), M(UD, "harness/C08/urlencoded_de.rs"), M(CD, "harness/C08/cookie_de.rs"), M("ohkami_lib/src/serde_multipart/parse.rs", "harness/C10/parse.rs", modname="__verif_c10")]
 CONTRACTS = []
 HARNESSES = []
 B = dict(crate="ohkami_lib", strength="bounded", timeout=900)
@@ -46,5 +46,10 @@ for nm, cl in [("c10_parse_malformed_total_k00", "body `--b CRLF CRLF --b--` (no
     HARNESSES.append(H(nm, functions=["serde_multipart::parse::Multipart::parse", "serde_multipart::parse::Multipart::next"], clauses=[cl], tier="quick",
                        bound="ONE concrete template (no symbolic byte): a symbolic execution of the real parser, not a quantified statement",
                        unwindset={"memcmp": 8, "eq_ignore_ascii_case": 24, "spec_utf8": 6, "eqb": 6, "any_content": 5}, crate="ohkami_lib", strength="bounded", timeout=900))
+TPL = ["(empty)", "a", "%", "%4", "%41", "a%41", "%41a", "ab%41", "%41%42", "a%4", "%41%", "abc%3F", "%zz", "%4g", "%E7%8B%BC", "%ff"]
+for k in range(16):
+    HARNESSES.append(H(f"c08_percent_wrapper_k{k:02d}", functions=["percent_encoding::percent_decode (ohkami_lib wrapper)", "percent_encoding::percent_decode_utf8 (ohkami_lib wrapper)", "external crate percent-encoding 2.x: PercentDecode (executed)"],
+                       clauses=["percent_decode(input) == the RFC 3986 reference decoding (spec/percent.rs) byte for byte", "percent_decode_utf8: Ok(s) iff that decoding is valid UTF-8, and then s is it"],
+                       tier="quick", bound=f"ONE concrete input `{TPL[k]}` (the assumed contract used everywhere else, checked against the real wrapper + crate on enumerated inputs)", crate="ohkami_lib", strength="bounded", timeout=600, expect_covers=False))
 TRUSTED = ["serde's primitive Deserialize impls / visitors are executed symbolically, not specified", "ASSUMED CONTRACT of the external crate percent-encoding: ohkami_lib::percent_encoding::{percent_decode, percent_decode_utf8} are stubbed by the reference RFC 3986 decoder spec/percent.rs (the real crate builds symbolic-length Vecs, on which CBMC does not terminate)", "alloc::fmt::format stubbed (error texts)"]
 ASSUMPTIONS = ["floats excluded (std float parsing is outside CBMC's reach)", "derived Deserialize impls (struct/map glue) are not driven: the unit of contract is the deserializer method (DESIGN §4 C08)"]
